@@ -411,5 +411,5 @@ def _mk(rule):
     return f
 
 
-for _r in ("C12.R1", "C12.R3", "C12.R4", "C12.R5", "C12.R6", "C12.R7"):
+for _r in ("C12.R1", "C12.R2", "C12.R3", "C12.R4", "C12.R5", "C12.R6", "C12.R7", "C12.R8", "C12.R9"):
     lemmas.register(_r, _mk(_r))
